@@ -86,7 +86,9 @@ WEIGHT_KEYS = {
     "Bidirectional": ["kernel_quantizer", "recurrent_quantizer", "bias_quantizer"],
     "AveragePooling2D": ["average_quantizer"], "GlobalAveragePooling2D": ["average_quantizer"],
 }
-MODES = ["class", "absent", "name", "name+class", "partialname+class"]
+# "class:other-key": the QActivation class entry is a dictionary that has NO key for this layer's activation kind (only
+# for the other kinds): the layer is not selected and must be left exactly as it was
+MODES = ["class", "absent", "name", "name+class", "partialname+class", "class:other-key"]
 
 
 def bound(tier):
@@ -262,6 +264,14 @@ def build_dict(case, names):
   for s, n, mode in zip(case["seq"], names, case["modes"]):
     cls = ALPHABET[s][0]
     if entry_for(cls, 0) is None:
+      continue
+    if mode == "class:other-key":
+      if cls in ("Activation", "ReLU", "LeakyReLU"):
+        kind = ALPHABET[s][3].get("activation") if cls == "Activation" else ("leakyrelu" if cls == "LeakyReLU" else "relu")
+        d[qclass_key(cls)] = {k: v for k, v in {"relu": "quantized_relu(6,2)", "leakyrelu": "quantized_relu(6,2,negative_slope=0.25)",
+                                                "tanh": "quantized_tanh(5)"}.items() if k != kind}
+      else:
+        d[qclass_key(cls)] = entry_for(cls, 0)
       continue
     if mode in ("class", "name+class", "partialname+class"):
       d[qclass_key(cls)] = entry_for(cls, 0)
